@@ -39,32 +39,50 @@ func (w *World) frameNoise(ep *Endpoint, spec packets.PacketFilterSpec, now time
 		opts := codec.V4Opts{ID: uint16(rng.Uint32()), Flags: 2}
 		var ether uint16
 		var b []byte
+		// one class of one field (mut 0..9), or, for a third of the frames, an independent draw for
+		// every field: the property quantifies over the product of the classes (an ICMP frame for
+		// another address, a fragment with options and a foreign port, ...)
 		mut := rng.IntN(14)
-		switch mut {
-		case 0: // exact tuple, any flags
-		case 1:
+		combo := mut < 10 && rng.IntN(3) == 0
+		on := func(k int) bool {
+			if combo {
+				return rng.IntN(4) == 0
+			}
+			return mut == k
+		}
+		if on(1) {
 			sa[rng.IntN(4)] ^= pickByte(rng)
-		case 2:
+		}
+		if on(2) {
 			da[rng.IntN(4)] ^= pickByte(rng)
-		case 3:
+		}
+		if on(3) {
 			sp ^= uint16(pickByte(rng)) << (8 * uint(rng.IntN(2)))
-		case 4:
+		}
+		if on(4) {
 			dp ^= uint16(pickByte(rng)) << (8 * uint(rng.IntN(2)))
-		case 5:
-			proto = []uint8{1, 17, 6, 58, 132, 0, 255}[rng.IntN(7)]
-		case 6:
+		}
+		if on(5) {
+			proto = []uint8{1, 17, 6, 58, 132, 0, 255, 1, 1}[rng.IntN(9)]
+		}
+		if on(6) {
 			opts.FragOff = uint16([]int{1, 8, 0x1fff, 185}[rng.IntN(4)])
 			opts.Flags = uint8(rng.IntN(4))
-		case 7:
+		} else if on(7) {
 			opts.Flags = 1 // MF with offset 0: not decided by the property
-		case 8:
+		}
+		if on(8) {
 			n := 4 * (1 + rng.IntN(10))
 			opts.Options = make([]byte, n)
 			for k := range opts.Options {
 				opts.Options[k] = 1
 			}
-		case 9:
+		}
+		if on(9) {
 			ether = []uint16{0x86dd, 0x0806, 0x8100, 0x0800}[rng.IntN(4)]
+		}
+		if combo {
+			mut = 20 // reported as its own class
 		}
 		seg := codec.TCPSeg{SrcPort: sp, DstPort: dp, Seq: rng.Uint32(), Ack: rng.Uint32(), Flags: flags, Window: 512}
 		s4, d4 := netip.AddrFrom4(sa), netip.AddrFrom4(da)
